@@ -287,13 +287,25 @@ Fixpoint stuck_list (l : list thr) (i : nat) : list Z :=
 Definition final_obs (isvoid : bool) (s : st) : list Z :=
   match slot s with SReady => 9 :: 1 :: okind isvoid (payload s) | _ => [9; 0; 0; 0] end.
 
-Definition cell_run (isvoid : bool) (ops : list (list Z)) : list (list Z) :=
+(* "losers leave no trace" on the caller's side (engines with a move-only / instance-counted payload, trc = true): one line
+   `12 tid t 0` per direct value call promise(v): t = 1 iff the call consumed its rvalue argument / constructed an instance
+   of T, which only the winning call does (future.h:644-651: claim first, construct in place only when claimed) *)
+Fixpoint trace_obs (l : list thr) (i : nat) : list (list Z) :=
+  match l with
+  | [] => []
+  | TR (KVal _) (RDone r) :: t => [12; Z.of_nat i; b2z r; 0] :: trace_obs t (S i)
+  | _ :: t => trace_obs t (S i)
+  end.
+
+Definition cell_run2 (isvoid trc : bool) (ops : list (list Z)) : list (list Z) :=
   let s0 := init ops in
   let sched := flat_map decode_sched ops in
   let '(s, tr) := run_sched (length sched + 2000) s0 sched [] in
   map (fun p => [Z.of_nat (fst p); snd p]) tr
   ++ (match stuck_list (thrs s) 0 with [] => [] | l => [777 :: l] end)
-  ++ thr_obs_all isvoid (sublog s) (slot_ready s) (thrs s) 0 ++ frame_obs s ++ [final_obs isvoid s; [10; 0; 0]].
+  ++ thr_obs_all isvoid (sublog s) (slot_ready s) (thrs s) 0 ++ (if trc then trace_obs (thrs s) 0 else [])
+  ++ frame_obs s ++ [final_obs isvoid s; [10; 0; 0]].
+Definition cell_run (isvoid : bool) (ops : list (list Z)) : list (list Z) := cell_run2 isvoid false ops.
 
 (* ---------- decidable form of C01 + C02 on an observed result block ---------- *)
 (* expected final outcome given which declared resolver (by tid) reported success *)
@@ -348,6 +360,8 @@ Definition cell_oracle (isvoid : bool) (ops obs : list (list Z)) : bool :=
                  (length decl)
       (* an async winner destroyed its frame exactly once, after the future became ready; nobody else did *)
       && list_eqb (concat (filter is_frame_line res)) (if asy then [11; Z.of_nat w; 1; 0] else [])
+      (* losers leave no trace: only the winner's call consumed its argument / constructed a value *)
+      && forallb (fun l => match l with [12; i; t; _] => Z.eqb t (if Z.eqb i (Z.of_nat w) then 1 else 0) | _ => true end) res
   | _ => false
   end.
 
